@@ -175,6 +175,7 @@ pub fn run_case(sc: &Scenario, mode: &Mode) -> CaseOut {
         3 => out.count("scenarios_with_motif_shared_ephemeral_concurrent"),
         4 => out.count("scenarios_with_motif_fan_in"),
         5 => out.count("scenarios_with_motif_dependency_removed_and_put_back"),
+        6 => out.count("scenarios_with_motif_convergent_chains"),
         100 => out.count("scenarios_mutated_from_regression_corpus"),
         _ => out.count("scenarios_without_motif"),
     }
